@@ -1,12 +1,12 @@
 """C08 — Coq theorems over coq/Model/Pool.v (lists regenerated from the source) + simulation of the real executor code with monitors."""
 from checks import simcommon as S
 
-FAMILIES = ['plain', 'timeout', 'resize', 'saturate']
+FAMILIES = ['plain', 'timeout', 'resize', 'saturate', 'satreuse']
 PER_FAMILY = (300, 6000)
 
 
 PROOF = S.pool_proof('C08', ['C08_never_more_than_max', 'C08_accepted_submit_fills_the_pool', 'C08_registered_job_always_has_a_worker_coming', 'C08_structure'],
-                    "'max_workers tasks do run simultaneously' is observed in the saturate family (the model counts registered workers, not running tasks); max_workers changes by _resize are not modelled")
+                    "'max_workers tasks do run simultaneously' is observed in the saturate / satreuse families (the model counts registered workers, not running tasks); max_workers changes by _resize are not modelled; the reusable executor's fixed queue capacity bounds the delivered parallelism (H19, known)", extra_gen=['Resize'])
 
 
 def run(ctx):
